@@ -32,7 +32,11 @@ func isLevelB(seed uint64) bool {
 func configure(seed uint64, tier string) sim.RunConfig {
 	if isLevelB(seed) {
 		x := sim.SplitMix64(seed ^ 0xc09)
-		return sim.RunConfig{MaxSteps: 4_000_000, MaxSim: 10 * time.Minute, PreemptProb: []float64{0.05, 0.2}[x%2],
+		maxSteps := 4_000_000
+		if tier != "thorough" {
+			maxSteps = 800_000 // about a minute of wall time at worst: the quick tier must stay quick
+		}
+		return sim.RunConfig{MaxSteps: maxSteps, MaxSim: 10 * time.Minute, PreemptProb: []float64{0.05, 0.2}[x%2],
 			StepCost: []time.Duration{5 * time.Microsecond, 20 * time.Microsecond}[(x>>4)%2]}
 	}
 	return sim.RunConfig{MaxSteps: 3_000_000, StepCost: 1000}
